@@ -101,6 +101,17 @@ def cases(seed, tier, shard, nshards):
         c = make_case(rng, g0, a, rng.choice(['ints', 'sparse', 'str']), f'rand{n}')
         c['assign'] = 'random'
         yield c
+    # dense graphs: more than ten ring bonds open at the same time, so the writer needs several %nn markers on one node
+    for _ in range(max(1, cfg['rand'] // (4 * nshards))):
+        n = rng.choice([7, 8, 9, 10, 12])
+        g0 = nx.complete_graph(n) if rng.random() < 0.4 else nx.gnp_random_graph(n, rng.choice([0.6, 0.8]), seed=rng.randrange(10 ** 6))
+        if not nx.is_connected(g0):
+            continue
+        single = rng.random() < 0.6
+        a = {frozenset(e): 1 if single else rng.choice([0, 1, 1, 1, 2, 3, 4]) for e in g0.edges}
+        c = make_case(rng, g0, a, rng.choice(['ints', 'sparse', 'str']), f'dense{n}')
+        c['assign'] = 'single' if single else 'random'
+        yield c
 
 
 def build(case):
